@@ -1,6 +1,6 @@
 """C07 -- the Max-SMT problem keeps an optimal program and prices it correctly.
 
-Per small specification (init_progr_len <= 5), criterion and encoder option set:
+Per small specification (init_progr_len <= 7), criterion and encoder option set:
  1. feasibility: if E3 (own synthesis encoding, sequence free) finds a realizing sequence within the bounds, the hard
     constraints of the real encoding must be satisfiable;
  2. optimum: z3's Optimize is run on the *real* emitted problem (hard constraints + assert-soft lines, parsed from the
@@ -20,6 +20,7 @@ from vlib.smt import Stats
 from checks import c06
 
 STATS = Stats()
+MAX_LEN = 7
 
 
 def price(spec, iid, crit, push0):
@@ -149,7 +150,7 @@ def job(j):
             except Exception:
                 continue
             for name, spec in sfs.items():
-                if not 1 <= spec["init_progr_len"] <= 5 or spec["max_sk_sz"] < 1:
+                if not 1 <= spec["init_progr_len"] <= MAX_LEN or spec["max_sk_sz"] < 1:
                     continue
                 key = (name, crit, repr(sorted((i["id"], tuple(i["inpt_sk"])) for i in spec["user_instrs"])), tuple(spec["tgt_ws"]),
                        spec["init_progr_len"], spec["max_sk_sz"])
@@ -166,6 +167,11 @@ def main():
     rep = report.Report("C07", "model_checking")
     texts = F.f_exh(2)[:: (2 if tier == "quick" else 1)] + F.consuming_singles(["ADD", "SUB", "AND", "ISZERO", "LT", "SHL"])[::3]
     texts += F.f_mem((2,), deltas=[0])[::4]
+    texts += F.f_mem_dataflow(deltas=(0,))[:: (6 if tier == "quick" else 2)]
+    # nullary instructions needed twice, ternary instructions with a computed third operand
+    texts += ["CALLER CALLER", "CALLVALUE DUP1 ISZERO", "ADDRESS DUP1 ADD", "CALLER DUP1 DUP1", "TIMESTAMP CALLER TIMESTAMP",
+              "SWAP2 ISZERO SWAP2 ADDMOD", "SWAP2 ISZERO SWAP2 MULMOD", "DUP3 ISZERO DUP3 DUP3 ADDMOD", "ISZERO SWAP2 SWAP1 ADDMOD",
+              "DUP3 DUP3 DUP3 ADDMOD", "SWAP1 ISZERO SWAP1 DUP3 MULMOD"]
     texts += ["%s %s %s" % (a, op, b) for op in ("SUB", "LT", "DIV", "SHL", "ADD", "AND") for a in ("DUP1", "DUP2", "PUSH 1", "SWAP1")
               for b in ("DUP1", "DUP2", "SWAP1", "POP")]
     texts += ["PUSH 0 DUP2 ADD PUSH 3 MUL", "DUP2 DUP2 SUB SWAP1 POP", "DUP3 DUP3 MSTORE DUP2 MLOAD", "DUP2 DUP2 SSTORE DUP1 SLOAD",
@@ -213,7 +219,7 @@ def main():
                        "sequences within the bounds (z3 Optimize over E3); transitions = instances generated",
         "functions": ["BlockOptimizer / FullEncoding (hard + soft constraints, bounds, pruning options)", "BlockOptimizer._rebuild_block_from_solver"],
     }
-    rep.assumptions = ["init_progr_len <= 5, max_sk_sz >= 1, -push-basic excluded (see the C06 findings)",
+    rep.assumptions = ["init_progr_len <= 7, max_sk_sz >= 1, -push-basic excluded (see the C06 findings)",
                        "prices from vlib.cost: gas of context dependent instructions at their minimum"]
     sys.exit(rep.finish())
 
